@@ -317,8 +317,7 @@ struct Value {
             return data;
         default:
             // ascii representation
-            data.resize(str.length());
-            memcpy(data.data(), str.data(), str.length());
+            data.assign(str.begin(), str.end()); // (memcpy into data() of an empty vector passed a null pointer)
             return data;
         }
     }
